@@ -67,7 +67,7 @@ def _variants(prop, renamed_mutants=False):
                 out.append(("twin", dict(name=f"refactoring {rid}", patch=pth, known_limit=meta.get("known_limit", {}).get(prop))))
     # every driver must give the clean verdict on the alpha-renamed package, and still see every mutant there
     out.append(("twin", dict(name="alpha-renamed locals (whole package)", rename=True, edits=[])))
-    for kind in ("flip", "invert", "kwargs", "aug", "noise", "annot", "inlinetemp", "extracttemp"):
+    for kind in ("flip", "invert", "kwargs", "aug", "noise", "annot", "inlinetemp", "extracttemp", "comp2loop", "swapindep", "splitunpack"):
         out.append(("twin", dict(name=f"shape edit `{kind}` (whole package)", reshape=kind, edits=[])))
     if renamed_mutants:
         for m in getattr(mod, "MUTANTS", []):
